@@ -22,7 +22,7 @@ type PropConfig struct {
 	NotDecided  []string `json:"not_decided"`
 	Assumptions []string `json:"assumptions"`
 	Bounded     []BoundedSpec `json:"bounded"`
-	Replay      map[string]string `json:"replay"` // obligation name prefix -> replay template
+	Replays     []ReplaySpec  `json:"replays"`
 }
 
 type BoundedSpec struct {
